@@ -363,8 +363,12 @@ impl Message<'_> {
         let header = Header {
             two_step_flag: false,
             source_port_identity: port_identity,
+            // the request's correction is whatever the sender put there: do not overflow
             correction_field: TimeInterval(
-                request_header.correction_field.0 + timestamp.subnano().0,
+                request_header
+                    .correction_field
+                    .0
+                    .saturating_add(timestamp.subnano().0),
             ),
             log_message_interval: min_delay_req_interval.as_log_2(),
             ..request_header
